@@ -183,6 +183,9 @@ func ParseJWT(tokenString string, f PublicKeyFunc, options ...jwt.ParseOption) (
 	if !jwx.IsAlgorithmSupported(alg) {
 		return nil, fmt.Errorf("token signing algorithm is not supported: %s", alg)
 	}
+	if !jwx.AlgorithmFitsKey(alg, key) {
+		return nil, fmt.Errorf("token signing algorithm does not fit the key: %s", alg)
+	}
 
 	options = append(options, jwt.WithKey(alg, key))
 	options = append(options, jwt.WithVerify(true))
@@ -211,6 +214,9 @@ func ParseJWS(token []byte, f PublicKeyFunc) (payload []byte, err error) {
 	key, err := f(headers.KeyID())
 	if err != nil {
 		return nil, err
+	}
+	if !jwx.AlgorithmFitsKey(alg, key) {
+		return nil, fmt.Errorf("token signing algorithm does not fit the key: %s", alg)
 	}
 	// let the library verify the signature over the signing input of the message it parsed (protected header and
 	// payload), whatever the serialization, and return the payload that was verified
